@@ -882,6 +882,7 @@ def r8_anchor_targets_exist(ctx, rep):
     under a run-time condition such as `.visible` / a summary flag."""
     py, j = ctx.py, ctx.j
     pages = doc_pages(py)
+    arg_kinds: Dict[str, Set[str]] = {}
     for pcls, (tpl, key) in sorted(pages.items()):
         if pcls in ("FilePage", "NamelistPage", "GenericInterfacePage", "InterfacePage", "AbsIntPage"):
             continue
@@ -909,10 +910,39 @@ def r8_anchor_targets_exist(ctx, rep):
                        f"arguments of contained procedures ([[proc:arg]]) have no target", f"ford/templates/{tpl}")
                 continue
             ok = any(not dyn for dyn in recs)
+            if ok and w.endswith(".args[*].anchor"):
+                arg_kinds.setdefault(tpl, set())
+                for o in outs:
+                    if o.ctx == ("attr", "id") and o.sym == w and "<in-test>" not in o.macros:
+                        ks = {m.group(1) for c in o.conds if c[1] for m in [re.search(r"\.obj == '(\w+)'\)?$", c[0])] if m}
+                        arg_kinds[tpl] |= ks or {"*"}
             rep.ob(f"page={tpl} anchor {w}", ok,
                    "id emitted unconditionally for every member" if ok else
                    f"the id {{{{ {w} }}}} is only emitted under {recs[0]}: for members where that run-time flag is set the "
                    f"anchor that get_url()/[[...]] links point to does not exist", f"ford/templates/{tpl}")
+    # a dummy argument may be a procedure (described by an interface block): [[proc:arg]] then points at '#proc-<arg>', so the
+    # argument table must emit the id for that kind of row as well
+    if _args_may_hold_procedures(py):
+        for tpl, kinds in sorted(arg_kinds.items()):
+            ok = "*" in kinds or {"variable", "proc"} <= kinds
+            rep.ob(f"page={tpl} argument anchors cover dummy procedures", ok,
+                   "the id is emitted for variable and procedure arguments" if ok else
+                   f"the argument table emits an id only for rows with obj in {sorted(kinds)}: a dummy procedure has the URL "
+                   f"'<page>#proc-<name>' but no element carries that id (dead fragment for [[proc:callback]])",
+                   f"ford/templates/{tpl}", nontrivial=not ok)
+
+
+
+def _args_may_hold_procedures(py) -> bool:
+    """FortranProcedure._cleanup replaces a dummy argument by the procedure of the interface block that describes it"""
+    fn = py.func("FortranProcedure._cleanup")
+    for st in ast.walk(fn):
+        if isinstance(st, ast.Assign) and any(isinstance(t, ast.Subscript) and ast.unparse(t.value) == "self.args" for t in st.targets):
+            if any(isinstance(a, ast.Attribute) and a.attr in ("procedure", "interfaces") for x in astq.expand_locals(st.value, fn)
+                   for a in ast.walk(x)) or any(isinstance(n, ast.For) and "interfaces" in ast.unparse(n.iter) and st in list(ast.walk(n))
+                                                for n in ast.walk(fn)):
+                return True
+    return False
 
 
 def r7_pageable_entities_get_pages(ctx, rep):
